@@ -55,7 +55,7 @@ def plan(tier, seed):
 
 
 def mandatory(tier):
-    return [f"op/{o}" for o in OPS] + ["chain", "down_chain_levels>=2"]
+    return [f"op/{o}" for o in OPS] + ["chain", "down_chain_levels>=2", "cube_grid/spacing"]
 
 
 def setup(ctx):
@@ -226,8 +226,25 @@ def rand_op(rng, g, name):
     if name == "cube_grid":
         cube = g.cube()
         acg = bool(rng.integers(0, 2))
-        kind = int(rng.integers(0, 3))
+        kind = int(rng.integers(0, 4))
         size = [int(rng.integers(2, 2 * k + 2)) for k in n]
+        if kind == 3:
+            # spacing that divides the extent into a whole number of cells (up to float32 rounding of the ratio)
+            import torch
+
+            cells = np.array([int(rng.integers(2, 2 * k + 2)) for k in n], dtype=np.float64)
+            sp = (cube.extent().double() / torch.tensor(cells)).float()
+
+            def by_spacing():
+                r = cube.grid(spacing=sp, align_corners=acg)
+                ctx = _state["ctx"]
+                ctx.bucket("cube_grid/spacing")
+                want = [int(c) + (1 if acg else 0) for c in cells]
+                ctx.true("Cube.grid(spacing):size", [int(k) for k in r.size()] == want, got=[int(k) for k in r.size()], want=want, spacing=sp.tolist(), align_corners=acg)
+                ctx.close("Cube.grid(spacing):spacing", r.spacing(), sp.double().numpy(), 8 * 1.2e-7 * sp.double().numpy(), align_corners=acg)
+                return r
+
+            return by_spacing, dict(op=name, cells=cells.tolist(), align_corners=acg)
         if kind == 0:
             return (lambda: cube.grid(size=tuple(size), align_corners=acg)), dict(op=name, size=size, align_corners=acg)
         if kind == 1:
